@@ -165,6 +165,10 @@ CHECKS["C44"] = dict(engine="tlc+vh", level="model_checking", ref="4.19", techni
                      text="Exhaustive over 30 leaf classes (i64/u64/2^53 boundaries, -0.0, subnormal, 1e300, integral floats, empty/unicode/escaped/NUL strings, booleans, null) and all arrays (width 2, thorough 3) and objects (2 keys) of leaves, top-level and nested one level deeper by the request, through 3 route/pipeline combinations: the value and the type the pipeline sees must equal the JSON sent.",
                      note="Trusted: serde_json for parsing the harness's own request text and the response; warp::test. Bounded: nesting depth 2 (value inside a request array), finite representatives per class.")
 
+CHECKS["C04"] = dict(engine="tlc+vh", level="model_checking", ref="4.3", technique="TLA+ spec (Partition.tla): key-table operator vs declarative per-key reference model-checked with TLC (faulty shared-buffer and colliding-key variants must be rejected); TLC-generated (operator class, key type, interleaved stream) cases (PartGen.tla) replayed on the real engine as a differential: whole partitioned run vs union of runs on each key's sub-sequence",
+                     text="Differential on the real engine over 11 operator classes (count, sliding count, tumbling, sliding, session windows, running aggregate, having, 2/3-step sequences with cross-alias predicates, Kleene) x 3 key types (strings, integers, look-alike numeric strings) x interleavings of up to 3 keys plus events without the key field: the multiset of outputs equals the union of the per-key runs.",
+                     note="Trusted: the per-key runs of the same engine as reference (as the property is stated). Bounded: streams of 10 (thorough 13) events; .not clauses excluded because C01 defines them as stream-global.")
+
 NOT_APPLICABLE = {
     "C41": "parser totality over arbitrary strings: no state/transition system to specify; a TLA+ model would only enumerate token strings (fuzzing under another name)",
     "C43": "LSP handler robustness over arbitrary text/cursor: per-call robustness, no protocol state in the property; outside model-based verification",
